@@ -15,9 +15,11 @@ import XotModel.Lemmas.RoundTripDeepEqual
 namespace XotModel.Repair
 open XotModel
 
-/-- The namespace `ns` can be declared: the no-namespace id, or a non-empty URI of XML Chars. -/
+/-- The namespace `ns` can be declared: the no-namespace id, or a non-empty URI of XML Chars other
+    than the xmlns namespace name (to which nothing can be bound: the parser refuses it). -/
 def nsStrOK (env : Env) (ns : Nat) : Bool :=
-  ns == Env.noNamespace || (!(env.namespaceStr ns).isEmpty && (env.namespaceStr ns).all isXmlChar)
+  ns == Env.noNamespace || (!(env.namespaceStr ns).isEmpty && (env.namespaceStr ns).all isXmlChar &&
+    env.namespaceStr ns != xmlnsNamespaceUri)
 
 /-- Every registered name is in a declarable namespace. -/
 def nameTableOK (env : Env) : Bool := env.names.all (fun n => nsStrOK env n.2)
@@ -208,7 +210,8 @@ theorem valueOK_undeclaration {env : Env} (he : envOK env = true) :
   have f := envFacts_of_envOK he
   have h0 := f.ns0
   simp only [Env.noNamespace] at h0
-  simp [valueOK, h0, Env.emptyPrefix, Env.noNamespace, Env.xmlPrefix, Env.xmlNamespace]
+  have : ([] : Str) ≠ xmlnsNamespaceUri := by decide
+  simp [valueOK, h0, Env.emptyPrefix, Env.noNamespace, Env.xmlPrefix, Env.xmlNamespace, this]
 
 /-- A declaration `xmlns:n{k}="URI"` of a reportable, declarable namespace is well formed. -/
 theorem valueOK_generated {env : Env} (he : envOK env = true) {p ns : Nat} {s : Str}
@@ -224,9 +227,9 @@ theorem valueOK_generated {env : Env} (he : envOK env = true) {p ns : Nat} {s : 
     obtain ⟨k, hk⟩ := hs
     rw [hk] at hstr
     simp [generatedPrefixName] at hstr
-  simp only [nsStrOK, Bool.or_eq_true, beq_iff_eq, h0, false_or, Bool.and_eq_true] at hns
+  simp only [nsStrOK, Bool.or_eq_true, beq_iff_eq, h0, false_or, Bool.and_eq_true, bne_iff_ne, ne_eq] at hns
   simp only [valueOK, hstr, g1, Bool.and_eq_true, Bool.or_eq_true, bne_iff_ne, ne_eq, beq_iff_eq, hpx,
-    not_false_eq_true, h1, h0, g2, and_self, or_true, true_and, hns.1, hns.2]
+    not_false_eq_true, h1, h0, g2, and_self, or_true, true_and, hns.1.1, hns.1.2, hns.2]
 
 theorem uniqueBelow_of_allNodes {env : Env} : ∀ (t : Tree), t.allNodes (nodeOK env) = true → UniqueBelow t := by
   have key : ∀ (t : Tree), t.allNodes (nodeOK env) = true → URec t := by
